@@ -6,6 +6,12 @@ CHECKS = {
  'C01': dict(level='exploration', technique='runtime monitor: lock-step list-of-pairs reference model compared after every operation of generated histories',
    text='Every read the statement lists is compared with a plain list-of-pairs model after every step of thousands of seeded random histories (all argument shapes incl. one-shot iterators, self, kwargs; copy/deepcopy/pickle 0-5). Exploration, not proof: held on the histories executed.',
    note='Trusted: the 60-line list model in checks/c01_omd.py; keys/values from a small pool; popitem may pick any key.', ref='3/C01'),
+ 'C02': dict(level='exploration', technique='runtime monitor: lock-step sequential reference cache (contents, counters, on_miss log) after every step + behavioural eviction-order probes',
+   text='LRI and LRU are driven through seeded random dict-API histories (max_size 1-5 and 128, with/without on_miss); contents, len, membership, the three counters and the on_miss log are compared with a sequential reference cache after every step, and the complete eviction order is probed by fresh inserts at the end of every history and on every copy().',
+   note='Trusted: checks/cachemodel.py (100 lines). popitem may remove any pair; iteration order and a copy\'s counters are unspecified and not compared.', ref='3/C02'),
+ 'C03': dict(level='exploration', technique='runtime monitor: deterministic bytecode-level pre-emption scheduler (sys.monitoring INSTRUCTION) + recorded histories + linearizability checker; free-running stress threads',
+   text='Small multi-threaded programs run under a baton-passing scheduler that can switch threads at every bytecode boundary inside cacheutils (systematic single pre-emption at every event, sampled/systematic double pre-emptions, random 3-switch schedules) plus free-running stress threads; every recorded history with the final contents and probed eviction order is checked for linearizability against the sequential reference cache; deadlock and non-termination are detected on logical steps. Bounded exploration (<=3 threads, <=4 ops, <=3 pre-emptions).',
+   note='Trusted: checks/sched.py, checks/cachemodel.py. The lock the cache created is wrapped, not replaced. Known finding: dict-inherited len/in/iteration take no lock.', ref='3/C03'),
 }
 NA_REASON = 'check not built yet in this session (work in progress; see DESIGN.md section 3 for the planned monitor)'
 def main():
